@@ -10,20 +10,28 @@ Local Open Scope Z_scope.
 
 Definition rcpt_line (addr : str) : str := S_ "TO:<" ++ addr ++ S_ ">".
 
-Lemma parse_rcpt_line addr : parse_rcpt_to (rcpt_line addr) = Some addr.
-Proof. exact (parse_rcpt_to_bracketed (S_ "TO:") [] addr (or_introl eq_refl) eq_refl). Qed.
+Definition no_gt (addr : str) : bool := negb (contains_byte addr ">"%char).
+
+Lemma parse_rcpt_line addr : no_gt addr = true -> parse_rcpt_to (rcpt_line addr) = Some addr.
+Proof.
+  intros H. apply parse_rcpt_to_shape.
+  apply (RS (S_ "TO:") [] addr []); try reflexivity; [now apply negb_true_iff in H | now left].
+Qed.
 
 Lemma handle_rcpts_lines cfg d : forall addrs rec,
+  forallb no_gt addrs = true ->
   handle_rcpts cfg d rec (map rcpt_line addrs) = handle_rcpts_addr cfg d rec addrs.
 Proof.
-  induction addrs as [|a rest IH]; intros rec; [reflexivity|].
-  cbn [map handle_rcpts handle_rcpts_addr]. unfold handle_rcpt. rewrite parse_rcpt_line.
+  induction addrs as [|a rest IH]; intros rec H; [reflexivity|].
+  cbn [forallb] in H. apply andb_true_iff in H as [Ha Hr].
+  cbn [map handle_rcpts handle_rcpts_addr]. unfold handle_rcpt. rewrite (parse_rcpt_line a Ha).
   destruct (max_recipients cfg <=? Z.of_nat (length rec)); [now rewrite IH|].
   destruct (handle_rcpt_addr cfg d rec a) as [r rec']. now rewrite IH.
 Qed.
 
-Lemma run_txn_lines cfg d addrs m : run_txn cfg d (map rcpt_line addrs) m = run_txn_addr cfg d addrs m.
-Proof. unfold run_txn, run_txn_addr. now rewrite handle_rcpts_lines. Qed.
+Lemma run_txn_lines cfg d addrs m :
+  forallb no_gt addrs = true -> run_txn cfg d (map rcpt_line addrs) m = run_txn_addr cfg d addrs m.
+Proof. intros H. unfold run_txn, run_txn_addr. now rewrite handle_rcpts_lines. Qed.
 
 (* ---- recipient limit ---- *)
 
@@ -94,7 +102,7 @@ Qed.
 Lemma size_over cfg d acc m :
   max_size cfg < m_size m ->
   do_db (handle_data cfg d acc m) = d /\ do_deliveries (handle_data cfg d acc m) = [] /\
-  (do_reply (handle_data cfg d acc m) = DR554 \/ do_reply (handle_data cfg d acc m) = DR503).
+  (do_reply (handle_data cfg d acc m) = DR_refused 552 (length acc) \/ do_reply (handle_data cfg d acc m) = DR503).
 Proof.
   intros H. unfold handle_data. destruct acc; [cbn; auto|].
   assert (E : (max_size cfg <? m_size m) = true) by (apply Z.ltb_lt; lia).
@@ -160,6 +168,29 @@ Proof.
   repeat split; auto. rewrite <- K. apply in_map_iff. now exists (r, D_ok st f).
 Qed.
 
+(** the role store is used only for an address that IS (byte for byte) the
+    address of an enabled role mailbox: no pattern or case twin *)
+Lemma role_store_exact cfg d acc m r e f :
+  In (r, D_ok (RoleStore e) f) (do_deliveries (handle_data cfg d acc m)) ->
+  e = r /\ In (mkRole r true) (roles d).
+Proof.
+  intros H. apply filed_where in H as [_ [T _]].
+  unfold spec_target in T. destruct (extract_parts r) as [[n dom]|]; [|discriminate].
+  destruct (is_role d r) eqn:E; [|discriminate]. injection T as <-. split; [reflexivity|].
+  unfold is_role in E. apply existsb_exists in E as [ro [Hin Hr]].
+  apply andb_true_iff in Hr as [H1 H2]. apply str_eqb_eq in H1.
+  destruct ro as [em en]. cbn in *. now subst.
+Qed.
+
+Lemma user_store_exact cfg d acc m r n dom f :
+  In (r, D_ok (UserStore n dom) f) (do_deliveries (handle_data cfg d acc m)) ->
+  extract_parts r = Some (n, dom) /\ is_role d r = false.
+Proof.
+  intros H. apply filed_where in H as [_ [T _]].
+  unfold spec_target in T. destruct (extract_parts r) as [[n' dom']|]; [|discriminate].
+  destruct (is_role d r); [discriminate|]. now injection T as -> ->.
+Qed.
+
 (* ---- the 250/550 replies of DATA say what each delivery did ---- *)
 
 Lemma deliver_keys m folder : forall acc d, map fst (fst (deliver_to_multiple d acc m folder)) = acc.
@@ -212,49 +243,10 @@ Proof.
   split; [discriminate|]. split; [reflexivity|]. vm_compute. auto.
 Qed.
 
-(** reject_unknown_user, bob@a.org exists, bob@b.org does not: accepted, and
-    the user bob@b.org is created *)
-Lemma refuted_unknown_user_other_domain :
-  exists cfg d addrs m, cfg_ok cfg /\ wf_db d /\
-    classify cfg d addrs m = Some K_unknown_user_other_domain /\
-    fst (spec_txn cfg d addrs m) = [Refused WhyUnknown] /\
-    txn_outcomes (run_txn_addr cfg d addrs m) = [MFiled (UserStore (S_ "bob") (S_ "b.org")) (S_ "INBOX")] /\
-    users (do_db (to_data (run_txn_addr cfg d addrs m))) = users d ++ [mkUser (S_ "bob") (S_ "b.org") true].
-Proof.
-  exists (w_cfg true false 0), w_db, [S_ "bob@b.org"], w_msg.
-  split; [discriminate|]. split; [reflexivity|]. vm_compute. auto.
-Qed.
+(* ---- regression: the recipient test before the fix C17-3 (local part only, no role mailboxes) ---- *)
 
-(** reject_unknown_user and an enabled role address: refused as unknown user *)
-Lemma refuted_role_rejected :
-  exists cfg d addrs m, cfg_ok cfg /\ wf_db d /\
-    classify cfg d addrs m = Some K_role_rejected_as_unknown /\
-    fst (spec_txn cfg d addrs m) = [FiledIn (RoleStore (S_ "support@a.org")) (S_ "INBOX")] /\
-    txn_outcomes (run_txn_addr cfg d addrs m) = [MRefused].
-Proof.
-  exists (w_cfg true false 0), w_db, [S_ "support@a.org"], w_msg.
-  split; [discriminate|]. split; [reflexivity|]. vm_compute. auto.
-Qed.
-
-(** ESMTP parameters: end to end, the message for <a@b.org> is filed for the
-    user "a" of a new domain "b.org> NOTIFY=NEVER" *)
-Lemma refuted_rcpt_params_filed :
-  exists cfg d args addr m, rcpt_shape args addr /\
-    spec_target d addr = Some (UserStore (S_ "a") (S_ "b.org")) /\
-    txn_outcomes (run_txn cfg d [args] m) = [MFiled (UserStore (S_ "a") (S_ "b.org> NOTIFY=NEVER")) (S_ "INBOX")].
-Proof.
-  exists (w_cfg false false 0), w_db, (S_ "TO:<a@b.org> NOTIFY=NEVER"), (S_ "a@b.org"), w_msg.
-  split; [|vm_compute; auto].
-  apply (RS (S_ "TO:") [] (S_ "a@b.org") (S_ " NOTIFY=NEVER")); try reflexivity.
-  right. now exists (S_ "NOTIFY=NEVER").
-Qed.
-
-Lemma refuted_rcpt_prefix_case_filed :
-  exists cfg d args addr m, rcpt_shape args addr /\
-    spec_target d addr = Some (UserStore (S_ "bob") (S_ "a.org")) /\
-    txn_outcomes (run_txn cfg d [args] m) = [MFiled (UserStore (S_ "To:<bob") (S_ "a.org")) (S_ "INBOX")].
-Proof.
-  exists (w_cfg false false 0), w_db, (S_ "To:<bob@a.org>"), (S_ "bob@a.org"), w_msg.
-  split; [|vm_compute; auto].
-  apply (RS (S_ "To:") [] (S_ "bob@a.org") []); try reflexivity. now left.
-Qed.
+Definition old_check_recipient_exists (d : db) (recipient : str) : option bool :=
+  match extract_local_part recipient with
+  | None => None
+  | Some username => Some (check_user_exists d username)
+  end.
